@@ -102,50 +102,81 @@ func (e *Engine) Solve(vc *FnVC, dir string, perMs int, solvers []string, agree 
 		if !undecided && !agree {
 			break
 		}
-		f := file
+		src := z3script
 		if s == "cvc5" {
-			f = file + ".cvc5"
+			src = cvscript
 		}
-		if len(res.Runs) > 0 && !agree {
-			// later solvers only see the obligations that are still undecided
-			keep := map[int]bool{}
-			for _, o := range vc.obls {
-				if o.Result != "unsat" && o.Result != "sat" && o.Unclaimed == "" {
-					keep[o.idx] = true
-				}
-			}
-			src := z3script
+		type pass struct {
+			file  string
+			ms    int
+			total int
+		}
+		var passes []pass
+		switch {
+		case len(res.Runs) == 0:
+			passes = []pass{{file, perMs, total}}
 			if s == "cvc5" {
-				src = cvscript
+				passes[0].file = file + ".cvc5"
 			}
-			f = file + "." + s + ".rest"
-			os.WriteFile(f, []byte(filterObligations(src, keep)), 0o644)
-		}
-		run := runSolver(s, f, perMs, total)
-		res.Runs = append(res.Runs, run)
-		if run.smoke != "" && (res.Smoke == "" || res.Smoke == "unknown") {
-			res.Smoke = run.smoke
-		}
-		for _, o := range vc.obls {
-			if o.Unclaimed != "" {
-				continue
-			}
-			r, ok := run.results[o.idx]
-			if !ok {
-				r = "timeout"
-			}
-			switch {
-			case r == "unsat" && o.Result == "sat", r == "sat" && o.Result == "unsat":
-				res.Disagree = append(res.Disagree, fmt.Sprintf("%s: %s says %s, %s says %s", o.Name, o.Solver, o.Result, s, r))
-			case r == "unsat" || r == "sat":
-				if o.Result != "unsat" && o.Result != "sat" {
-					o.Result, o.Solver = r, s
-				} else if agree {
-					o.Solver += "+" + s
+		default:
+			if agree {
+				// cross-check of everything, with a short budget: an undecided cross-check says nothing
+				cross := perMs
+				if cross > 3000 {
+					cross = 3000
 				}
-			default:
-				if o.Result == "" {
-					o.Result, o.Solver = r, s
+				ct := cross/1000*len(vc.obls) + 30
+				if ct > 180 {
+					ct = 180
+				}
+				f := file + "." + s + ".cross"
+				os.WriteFile(f, []byte(strings.ReplaceAll(strings.ReplaceAll(src, fmt.Sprintf("(set-option :timeout %d)", perMs), fmt.Sprintf("(set-option :timeout %d)", cross)), fmt.Sprintf("(set-option :tlimit-per %d)", perMs), fmt.Sprintf("(set-option :tlimit-per %d)", cross))), 0o644)
+				passes = append(passes, pass{f, cross, ct})
+			}
+			if undecided {
+				// the obligations that are still undecided, with the full budget
+				keep := map[int]bool{}
+				for _, o := range vc.obls {
+					if o.Result != "unsat" && o.Result != "sat" && o.Unclaimed == "" {
+						keep[o.idx] = true
+					}
+				}
+				f := file + "." + s + ".rest"
+				os.WriteFile(f, []byte(filterObligations(src, keep)), 0o644)
+				rt := perMs/1000*len(keep) + 30
+				if rt > 900 {
+					rt = 900
+				}
+				passes = append(passes, pass{f, perMs, rt})
+			}
+		}
+		for _, ps := range passes {
+			run := runSolver(s, ps.file, ps.ms, ps.total)
+			res.Runs = append(res.Runs, run)
+			if run.smoke != "" && (res.Smoke == "" || res.Smoke == "unknown") {
+				res.Smoke = run.smoke
+			}
+			for _, o := range vc.obls {
+				if o.Unclaimed != "" {
+					continue
+				}
+				r, ok := run.results[o.idx]
+				if !ok {
+					r = "timeout"
+				}
+				switch {
+				case r == "unsat" && o.Result == "sat", r == "sat" && o.Result == "unsat":
+					res.Disagree = append(res.Disagree, fmt.Sprintf("%s: %s says %s, %s says %s", o.Name, o.Solver, o.Result, s, r))
+				case r == "unsat" || r == "sat":
+					if o.Result != "unsat" && o.Result != "sat" {
+						o.Result, o.Solver = r, s
+					} else if agree && !strings.Contains("+"+o.Solver+"+", "+"+s+"+") {
+						o.Solver += "+" + s
+					}
+				default:
+					if o.Result == "" {
+						o.Result, o.Solver = r, s
+					}
 				}
 			}
 		}
